@@ -28,7 +28,10 @@ EXTENDS ULFsm, TLC
 CONSTANTS Triples,      \* (result, source, reason) triples an application may refuse with
           Reasons,      \* abort reasons an application may give
           MaxReq,       \* requests the requesting application sends at most
-          Timeouts      \* BOOLEAN: blocked receives may give up (DCMTimeoutError)
+          Timeouts,     \* BOOLEAN: blocked receives may give up (DCMTimeoutError)
+          Strict        \* BOOLEAN: one response per request, awaited only while one is outstanding (the echo / store
+                        \* discipline explored by TLC); FALSE when validating arbitrary traffic (C-FIND: many responses
+                        \* per request; a service may return without answering)
 
 VARIABLES app, st, alive, sock, uq, ind, net, wrote,
           rqErr, acErr, entered, svc, nreq, out, responded, given, acted
@@ -161,13 +164,13 @@ RqSend ==
   /\ NetSame /\ UNCHANGED <<app, ind, rqErr, acErr, entered, svc, responded, given, acted>>
 
 RqWait ==
-  /\ app["R"] = "body" /\ out > 0 /\ Goto("R", "rsp")
+  /\ app["R"] = "body" /\ (out > 0 \/ ~Strict) /\ Goto("R", "rsp")
   /\ NetSame /\ UNCHANGED <<uq, ind>> /\ UNCHANGED obsv
 
 RqRecv ==          \* receive() returns a response, or raises: the block is left through the error, which aborts
   /\ app["R"] = "rsp" /\ ind["R"] # <<>> /\ Take("R")
   /\ LET m == Head(ind["R"]) IN
-       CASE m.k = "PD" -> Goto("R", "body") /\ out' = out - 1 /\ rqErr' = rqErr /\ UNCHANGED uq
+       CASE m.k = "PD" -> Goto("R", "body") /\ out' = (IF out > 0 THEN out - 1 ELSE 0) /\ rqErr' = rqErr /\ UNCHANGED uq
          [] m.k = "AB" -> Goto("R", "kill") /\ out' = out /\ rqErr' = Err("AssociationAbortedError", m.f) /\ Put("R", Msg("AB", <<0, 0>>))
          [] m.k = "RLRQ" -> Goto("R", "kill") /\ out' = out /\ rqErr' = Err("AssociationReleasedError", <<>>) /\ Put("R", Msg("AB", <<0, 0>>))
          [] OTHER -> FALSE
@@ -214,11 +217,11 @@ AcRecv ==          \* the handler loop's receive(): a request invokes a service;
   /\ NetSame /\ UNCHANGED <<rqErr, entered, nreq, out, given, acted>>
 
 AcRespond ==
-  /\ app["A"] = "svc" /\ ~responded /\ responded' = TRUE /\ Put("A", Msg("PD", <<>>))
+  /\ app["A"] = "svc" /\ (~responded \/ ~Strict) /\ responded' = TRUE /\ Put("A", Msg("PD", <<>>))
   /\ NetSame /\ UNCHANGED <<app, ind, rqErr, acErr, entered, svc, nreq, out, given, acted>>
 
 AcReturn ==
-  /\ app["A"] = "svc" /\ responded /\ Goto("A", "serve")
+  /\ app["A"] = "svc" /\ (responded \/ ~Strict) /\ Goto("A", "serve")
   /\ NetSame /\ UNCHANGED <<uq, ind>> /\ UNCHANGED obsv
 
 AcAbort(r) ==      \* from inside a service, before or after its response
